@@ -128,6 +128,20 @@ Theorem stopping_pump_blocks_iff :
 Proof. exact (@Proofs_Pump.stopping_pump_blocks_iff_proof). Qed.
 Print Assumptions stopping_pump_blocks_iff.
 
+(** The run builtin around the pump (project_builtins.go; model [session]): over ANY sequence of runs, with and without a
+    callback, in any order, the project's own listener is the current one at the end and has received exactly the streams of
+    the runs without a callback, in order -- a build after run(..., callback=f) reports to the project's listener again.
+    Without the restore it does not. *)
+Theorem session_restores_the_listener :
+  forall (A : Type) (runs : list (bool * list A)), session true runs = (LBase, plain_streams runs).
+Proof. exact Proofs_Pump.session_restores_proof. Qed.
+Print Assumptions session_restores_the_listener.
+
+Theorem no_restore_refuted :
+  exists runs : list (bool * list bool), snd (session false runs) <> plain_streams runs.
+Proof. exact Proofs_Pump.no_restore_refuted_proof. Qed.
+Print Assumptions no_restore_refuted.
+
 (** non-vacuity: target 1 writes "ab", "\nc" and fails; target 2 is cut off below it *)
 Example stream_example :
   let pr := [(1, Fn [] [10] [100] 1 7 false); (2, Fn [1] [] [101] 2 8 false); (10, Src 50)] in
